@@ -5,7 +5,7 @@ package main
 // convertToLogicalLines(…, true) and runs split / tokenize / matchVarassign (+ MkLine.ValueAlign())
 // on every logical *Line (shim VerifMatchVarassignLines, in the C10mk worker processes); the model
 // is Model/MatchVarassign.v varassign_of_file = C09's convert_to_logical_lines + parse_varassign_ml
-// (the guard "no '=' in line.raw[0] => not an assignment", getRawValueAlign on raw[0]).
+// (the guard "the operator must end in line.raw[0]", getRawValueAlign on raw[0]).
 //
 // On the implementation's own answer the property is evaluated: a multi-line logical line must not
 // make the splitter panic; for an accepted line, [#] ++ pre ++ '#'comment is the logical text,
@@ -102,7 +102,7 @@ func c10mlSpec(raw0, text string, nraw int, va, modelVa string) (string, string)
 		if strings.HasPrefix(text, "\t") { // Parse treats it as a shell command; split asserts
 			return "", ""
 		}
-		if modelVa == "P" && strings.Contains(raw0, "=") {
+		if strings.Contains(raw0, "=") { // fixed in /repo; the key of the former known finding
 			return "panic-equals-in-first-raw-line-but-operator-in-continuation-line",
 				"the guard of matchVarassign looks for any '=' in the first raw line, the operator is in a continuation line: getRawValueAlign asserts"
 		}
@@ -173,6 +173,7 @@ func c10mlBatch(ctx *Ctx, res *Result, cases []c10mlCase, limit time.Duration, c
 		return
 	}
 	cnt := map[string]int{}
+	guardCand2 := map[string]bool{}
 	guardCand := map[string]bool{} // multi-line, rejected, no "=" in the first raw line: is the text alone an assignment?
 	for i, c := range cases {
 		a, m := impl[i], model[i]
@@ -220,6 +221,19 @@ func c10mlBatch(ctx *Ctx, res *Result, cases []c10mlCase, limit time.Duration, c
 			}
 			raw0 := strings.TrimSuffix(raws[pos], "\n")
 			pos += l.nraw
+			// the shape the no-panic theorem assumes of a line: the first physical line without its continuation
+			// backslash and trailing blanks starts the logical text (one raw line: it is the text)
+			firstLine := strings.TrimRight(strings.TrimSuffix(raw0, "\\"), " \t")
+			if (l.nraw > 1 && !strings.HasPrefix(l.text, firstLine)) || (l.nraw == 1 && l.text != raw0) {
+				res.AddViolation(Violation{Key: "C10/correspondence/varassign-ml-line-shape",
+					What:       fmt.Sprintf("logical line %d of %q: text %q does not start with the first physical line %q", k+1, c.in, l.text, firstLine),
+					FoundInput: false, Size: 1 + len(c.in),
+					Replay: map[string]any{"kind": "ml", "input": hx(c.in), "line": k + 1,
+						"broken": "hypothesis ml_shape of C10mk_varassign_ml_no_panic_partial holds for every line convertToLogicalLines builds"}})
+				cnt["ml_violations"]++
+			} else if l.nraw > 1 {
+				cnt["ml_line_shape_checked"]++
+			}
 			if what, desc := c10mlSpec(raw0, l.text, l.nraw, l.va, mo.va); what != "" {
 				res.AddViolation(Violation{Key: "C10/varassign-ml/" + what,
 					What:       fmt.Sprintf("matchVarassign on logical line %d of %q (text %q, %d raw lines): %s", k+1, c.in, l.text, l.nraw, desc),
@@ -253,6 +267,9 @@ func c10mlBatch(ctx *Ctx, res *Result, cases []c10mlCase, limit time.Duration, c
 						guardCand[l.text] = true
 					}
 				}
+				if strings.Contains(raw0, "=") && l.va == "N" && len(guardCand2) < 20000 {
+					guardCand2[l.text] = true // "=" in the first raw line, yet rejected: the operator is in a continuation line?
+				}
 				if strings.Count(first, "${") > strings.Count(first, "}") {
 					cnt["ml_multiline_break_inside_expression"]++
 				}
@@ -266,8 +283,15 @@ func c10mlBatch(ctx *Ctx, res *Result, cases []c10mlCase, limit time.Duration, c
 			*cross = append(*cross, [2]string{c.in, m})
 		}
 	}
-	if len(guardCand) > 0 {
-		texts := sortedKeys(guardCand)
+	for pass, cand := range []map[string]bool{guardCand, guardCand2} {
+		if len(cand) == 0 {
+			continue
+		}
+		key := "ml_multiline_rejected_by_guard"
+		if pass == 1 {
+			key = "ml_multiline_rejected_by_guard_despite_equals_in_first_raw_line" // the shape that crashed before the repair
+		}
+		texts := sortedKeys(cand)
 		greqs := make([]string, len(texts))
 		for i, t := range texts {
 			greqs[i] = "all " + hx(t)
@@ -275,7 +299,7 @@ func c10mlBatch(ctx *Ctx, res *Result, cases []c10mlCase, limit time.Duration, c
 		if ans, err := runOracle(ctx, "c10mk", greqs); err == nil {
 			for _, a := range ans {
 				if strings.HasPrefix(c10mkSplitSections(a)["va"], "M") {
-					cnt["ml_multiline_rejected_by_guard"]++ // the same text as ONE raw line is an assignment (model)
+					cnt[key]++ // the same text as ONE raw line is an assignment (model)
 				}
 			}
 		}
